@@ -28,6 +28,8 @@ STRATA = [
     ("multigraph", 1800, 28000),
     ("disconnected", 1800, 28000),
     ("larger", 240, 3500),
+    ("merge-plan", 900, 12000),
+    ("tiny-scale", 700, 9000),
     ("exhaustive-small", 1, 1),
 ]
 BATCH = {"exhaustive-small": 1}
@@ -84,6 +86,10 @@ def _weight_fn(rng, kind):
         return lambda: rng.randint(-24, 40) / 4.0
     if kind == "neg":
         return lambda: rng.randint(-9, 3)
+    if kind == "tiny":
+        # multiples of 2**-44 (~5.7e-14): exact in floats, differences far below any absolute epsilon
+        lo = rng.choice([0, 0, -12])
+        return lambda: rng.randint(lo, 40) * 2.0 ** -44
     return lambda: rng.randint(-3, 12)
 
 
@@ -119,6 +125,39 @@ def gen(stratum, rng, tier):
         n = rng.randint(2, 10)
         w = _weight_fn(rng, rng.choice(["ties", "int", "neg", "dyadic"]))
         connected = False
+    elif stratum == "tiny-scale":
+        n = rng.randint(2, 9)
+        w = _weight_fn(rng, "tiny")
+        connected = rng.random() < 0.85
+    elif stratum == "merge-plan":
+        # the union-find under kruskal is driven through a chosen merge order: distinct increasing weights dictate
+        # which components meet when (equal sizes preferred: maximal ranks), the joining edge touches arbitrary
+        # members (not the representatives), in either orientation; heavier edges inside a component must be refused
+        n = rng.randint(4, 18)
+        comps = [[i] for i in range(n)]
+        rng.shuffle(comps)
+        edges, step = [], 1
+        stop_at = 1 if rng.random() < 0.8 else rng.randint(2, 3)
+        while len(comps) > stop_at:
+            comps.sort(key=len)
+            i = rng.randrange(len(comps) - 1) if rng.random() < 0.7 else None
+            if i is None:
+                c1, c2 = rng.sample(comps, 2)
+            else:
+                c1, c2 = comps[i], comps[i + 1]
+            a = c1[-1] if rng.random() < 0.5 else rng.choice(c1)
+            b = c2[-1] if rng.random() < 0.5 else rng.choice(c2)
+            edges.append((a, b, step) if rng.random() < 0.5 else (b, a, step))
+            merged = c1 + c2
+            comps = [c for c in comps if c is not c1 and c is not c2] + [merged]
+            step += 1
+            if len(merged) >= 3 and rng.random() < 0.5:
+                x, y = rng.sample(merged, 2)
+                edges.append((x, y, step))  # closes a cycle, heavier than every edge on the path: never a tree edge
+                step += 1
+        rng.shuffle(edges)
+        return {"kind": "g", "n": n, "edges": edges, "labels": _labels(rng, n), "start": rng.randrange(n),
+                "adj_seed": rng.randrange(1 << 30), "tuple_adj": rng.random() < 0.3}
     elif stratum == "larger":
         n = rng.randint(15, 40)
         w = _weight_fn(rng, rng.choice(["ties", "int", "dyadic"]))
